@@ -501,7 +501,10 @@ def r5_setitem_routing(rep, src):
                     continue
                 kind, args, _kw = calls[0]
                 got = args[1] if len(args) > 1 else None
-                if kind != want[0]:
+                if kind != want[0] and kind == 'raw' and want[0] == 'simple' and isinstance(got, (SStr, str)) and symstr.lift(got).same(SStr([' ', want[1], '\n'])):
+                    # what the single-line setter would have built, handed to the raw setter directly
+                    rep.ok('C05.R5', f.site, what, 'raw(%r): the text the single-line setter builds' % (got,))
+                elif kind != want[0]:
                     rep.fail('C05.R5', f.site, what, ('the value is sent to the single-line setter although it contains a newline: its line structure is flattened'
                                                      if kind == 'simple' else 'a value without newline is not sent to the single-line setter'), where=f.where)
                 elif not (isinstance(args[0], H.Key) and args[0].cls == 'k'):
@@ -512,7 +515,7 @@ def r5_setitem_routing(rep, src):
                     rep.ok('C05.R5', f.site, what, '%s(%r)' % (kind, got))
     # a replaced field keeps its comment: with comment preservation on (and ambiguous fields auto-resolved) the comment
     # element of the old field is handed to the setter as the object itself, not re-rendered from text
-    for cname, value in (('F', F), ('F\\nR\\n', F + '\n' + R + '\n')):
+    for cname, value, old_line in (('F', F, ' old\n'), ('F\\nR\\n', F + '\n' + R + '\n', ' old\n'), ('F', F, '\n'), ('F', F, '   \n')):
         calls = []
 
         def simple3(it, args, kw, calls=calls):
@@ -522,10 +525,12 @@ def r5_setitem_routing(rep, src):
             calls.append(('raw', args[1:], kw))
         touched = []
 
-        def read_comment(it, args, kw, touched=touched):
+        def read_comment(it, args, kw, touched=touched, old_line=old_line):
             if args and args[0] == it.h.comment:
                 touched.append(True)
                 raise H.Raised('comment-content-read', it.h.version, 0)
+            if args and isinstance(args[0], H.Ref) and args[0].name == '@old_line0':
+                return old_line             # the text of the old field's first line after the colon
             return NotImplemented
         heap = H.Heap(src.mod(PM), hooks={'.set_field_to_simple_value': simple3, '.set_field_from_raw_string': raw3,
                                           '.get_kvpair_element': lambda it, args, kw: it.h.kv,
@@ -533,12 +538,15 @@ def r5_setitem_routing(rep, src):
         heap.symbolic_strings = True
         comment = heap.alloc('Deb822CommentElement', {}, name='@comment')
         heap.comment = comment
-        heap.kv = heap.alloc('Deb822KeyValuePairElement', {'comment_element': comment}, name='@old_field')
+        # (the old field is complete: its value element with the line after the colon -- a value, nothing, or blanks only)
+        line0 = heap.alloc('Deb822ValueLineElement', {}, name='@old_line0')
+        ve_ = heap.alloc('Deb822ValueElement', {'value_lines': heap.new_list([line0]), '_value_entry_elements': heap.new_list([line0])}, name='@old_value')
+        heap.kv = heap.alloc('Deb822KeyValuePairElement', {'comment_element': comment, '_comment_element': comment, 'value_element': ve_, '_value_element': ve_}, name='@old_field')
         para = heap.alloc('Paragraph', {}, name='@paragraph')
         me = heap.alloc('Deb822ParagraphToStrWrapperMixin', {
             '_preserve_field_comments_on_field_updates': True, '_auto_resolve_ambiguous_fields': True,
             '_auto_map_initial_line_whitespace': True, '_auto_map_final_newline_in_multiline_values': True, '_paragraph': para}, name='@wrapper')
-        what = 'value %s: the comment of the replaced field is kept' % cname
+        what = 'value %s: the comment of the replaced field is kept (old field line %r)' % (cname, old_line)
         it = H.Interp(heap)
         try:
             it.call(H.Closure(f.node, {}, me, f.cls), [item, value])
@@ -549,7 +557,16 @@ def r5_setitem_routing(rep, src):
             else:
                 rep.fail('C05.R5', f.site, what, 'raises %s' % x.exc, where=f.where)
             continue
-        if len(calls) == 1 and calls[0][2].get('field_comment') == comment and calls[0][2].get('preserve_original_field_comment') in (None, False):
+        # the value that is handed over is the one the caller assigned, routed as without comments -- whatever the old field looked like
+        want3 = ('simple', F.strip()) if cname == 'F' else ('raw', SStr([' ', F.strip(), '\n', R, '\n']))
+        got3 = calls[0][1][1] if len(calls) == 1 and len(calls[0][1]) > 1 else None
+        def as_raw(kind_, v_):
+            # the single-line setter stores ' ' + value + '\n' through the raw setter (decided below): one canonical form
+            return SStr([' ', v_, '\n']) if kind_ == 'simple' and isinstance(v_, (SStr, str)) else v_
+        if len(calls) == 1 and (not isinstance(got3, (SStr, str)) or not symstr.lift(as_raw(calls[0][0], got3)).same(as_raw(*want3))):
+            rep.fail('C05.R5', f.site, what, 'replacing a field whose line after the colon reads %r hands %s(%r) to the paragraph; specified: %s(%r) -- the new value depends on the '
+                     'layout of the old field (a field line without value makes the new value start with a line break)' % (old_line, calls[0][0], got3, want3[0], want3[1]), where=f.where)
+        elif len(calls) == 1 and calls[0][2].get('field_comment') == comment and calls[0][2].get('preserve_original_field_comment') in (None, False):
             rep.ok('C05.R5', f.site, what, 'field_comment is the old field\'s comment element itself')
         elif len(calls) == 1 and calls[0][2].get('preserve_original_field_comment') is True and calls[0][2].get('field_comment') is None:
             rep.ok('C05.R5', f.site, what, 'the setter is asked to preserve the original comment')
